@@ -322,6 +322,16 @@ check(const json& c)
   if (vmax(F.y) == 0)
     return Result::reject("no counts at all (image outside the FOV of every bin)");
   const int n = k.n_sub;
+  // triage aid (not an oracle of this property): does the projector of the case agree with the explicit matrix at all?
+  std::string proj_note;
+  {
+    std::string where;
+    const double d = projector_vs_explicit(F, F.truth, where);
+    stats().maxi("max rel diff projector (case symmetries/cache) vs explicit P", d);
+    if (d > 1e-4)
+      proj_note = cat(" [NOTE: the forward projector with symmetry switches ", c["sym"].get<int>(), " / cache ", F.cache,
+                      " differs from the symmetry-free matrix by ", d, " of the maximum at ", where, ": system-matrix matter (C03/C04)]");
+  }
 
   // ---------------- run A ----------------
   Run A;
@@ -376,7 +386,7 @@ check(const json& c)
           const Result res
               = compare_images(k.prior.kind ? "one-step-late MAP update" : "EM update", lam[std::size_t(j)], r.next, &r.skip, 1e-4,
                                k.prior.kind ? "max rel err MAP update" : "max rel err EM update",
-                               cat("(sub-iteration ", j, ", subset ", (j + k.start_subset - 1) % k.N, " of ", k.N, ")"));
+                               cat("(sub-iteration ", j, ", subset ", (j + k.start_subset - 1) % k.N, " of ", k.N, ")", proj_note));
           if (res.failed())
             return res;
           stats().count("update steps checked by formula");
